@@ -196,7 +196,7 @@ func (c *Cron) set(j *Job) error {
 		return nil
 	}
 
-	schedule, err := cronexpr.Parse(j.Expression)
+	schedule, err := parseCronExpr(j.Expression)
 	if err != nil {
 		return err
 	}
@@ -210,6 +210,26 @@ func (c *Cron) set(j *Job) error {
 	j.at = next.Add(c.Jitter())
 
 	return nil
+}
+
+// parseCronExpr is cronexpr.Parse, except that an expression that
+// makes the parser (or the computation of its occurrences) panic (a
+// reversed range such as "1-0 * * * *" does)
+// is an error, too.
+func parseCronExpr(expression string) (expr *cronexpr.Expression, err error) {
+	defer func() {
+		if caught := recover(); caught != nil {
+			expr = nil
+			err = fmt.Errorf("bad cron expression '%s': %v", expression, caught)
+		}
+	}()
+	expr, err = cronexpr.Parse(expression)
+	if err == nil {
+		// Some expressions parse and panic later, when they are
+		// asked for an occurrence.  Ask now.
+		expr.Next(time.Now().UTC())
+	}
+	return expr, err
 }
 
 func (s *Cron) Add(j *Job) error {
